@@ -7,7 +7,8 @@ From Verif Require Import Common.Base Normalise.Model Normalise.Spec Normalise.W
    SP/TAB/LF/FF/CR and text bytes, every run replaced by LF if it contains LF or CR and by SP otherwise,
    every text byte kept.  [collapse] is that o as a function.  All byte strings. *)
 Theorem ws_spec :
-  forall b, replace_multiple_ws b = Ok (collapse b) /\ Collapse false b (collapse b) /            (forall o, Collapse false b o -> o = collapse b).
+  forall b, replace_multiple_ws b = Ok (collapse b) /\ Collapse false b (collapse b) /\
+            (forall o, Collapse false b o -> o = collapse b).
 Proof. exact ws_spec_proof. Qed.
 Print Assumptions ws_spec.
 
